@@ -52,9 +52,39 @@ re-run any of them with `python3 tools/seedtest.py run <name> [check ids]`.
 {own_caught} by the check of the property they were written against. Where a change was first
 missed, the generator or oracle was strengthened (never the other way round) and the change re-run:
 
-* C07-m2 (committed block recorded once after the recursion) was missed by C07's quick run and
-  caught by C06's: the replica generator got well-formed *fork* proposals on older certified
-  blocks (the commit rule then targets a block below the committed one); now caught by C07 too.
+A bookkeeping accident of the first round is part of the record: for a while the Lean build was
+broken by a merge in progress, every check failed with "lake build failed", and the evaluation
+counted that as "caught". `seedtest.py` now sets infrastructure failures apart, and ALL changes
+were re-evaluated from scratch against the repaired tree (twice, the second time after the five
+repository repairs of the second day); a few changes no longer apply because a repair touched the
+same lines, they keep their last honest result.
+
+* C07-m2 / C01-r3m1 (committed block recorded once after the recursion, also when nothing was
+  committed) was caught only now and then: the replica generator got a dedicated scenario — a
+  commit, then a well-formed proposal on an older certified block whose own chain ends BELOW the
+  committed block — and more weight on such forks; caught by C07 at every seed tried.
+* C01-r2m2 / C01-m3 / C06-r3m3 (commitInner goes on when an ancestor cannot be fetched) were caught
+  by C13 only: the cluster generator got `gap` runs (a replica hears nothing for several views, then
+  everything, but can fetch only the newest blocks; fixed leader so that the others keep committing).
+* C01-r2m3 (the parent = certified-block check is skipped when an aggregate QC is attached): injected
+  proposals now carry unsolicited aggregate QCs in every configuration.
+* C03-r2m3 (lastVotedView rolled back when the vote cannot be sent): the replica family got
+  `sender-fails on|off` and an equivocating second proposal after a vote that could not be sent.
+* C10-m1 / C10-r2m1 (the error of restoring a BLS signature is ignored: typed nil): wire deliveries
+  got `trunc=` (signature bytes cut short). C10-r2m3 (nil guard of `QuorumCert.Equals`): the
+  certificate family got the genesis QC against its twin with a present-but-empty signature through
+  VerifyAnyQC — until repair 7d9bd97 stopped using `Equals` there; the change is now without effect
+  on any production path and is the one entry nothing reports.
+* C02-r2m1/m3, C02-m2 (duplicate signers far apart; participant count against QC map): new
+  certificate mutation kinds `dup-apart`, `count-mismatch`.
+* C11-r2m3 (BatchVerify builds its cache key with the message kind): `enc:<id>:<msg>` messages — a
+  signature over the very bytes the cache hashes for a one-entry batch.
+* C12-r2m1/m2/m3 (aggregate QC with an empty QC map dropped by ProposalFromProto; the fetch quorum
+  function returns a non-matching reply; out-of-range timestamps not restored): empty aggregate QCs
+  and timestamps outside timestamppb's range in the wire family, and the peer-fetch scripts of the
+  block-store family run under C12 as well.
+* C17-r2m3 (a childless Kauri node of height 2 takes the inner-node branch): the Kauri node is run
+  in every position of every tree shape with n <= 13 under C17.
 * C08-m2 (`signedBy` accepts multi-signer view signatures) was missed: the timeout injection got
   a `multi-viewsig` kind (the sender's genuine signature combined with another replica's).
 * C10-m3 (the RequestBlock handler converts the hash field with a slice-to-array conversion that
